@@ -1,5 +1,11 @@
 use verif_core::*;
 
+pub mod c13;
+pub mod c13_126x;
+pub mod c13_127x;
+pub mod c14;
+pub mod c14_adapter;
+
 pub fn table() -> Vec<Prop> {
-    vec![]
+    vec![Prop { id: "C13", run: c13::run, replay: c13::replay }, Prop { id: "C14", run: c14::run, replay: c14::replay }]
 }
